@@ -21,20 +21,26 @@ SPEC = dict(
              "handshake report sequences and random ones interleaved with user operations and pauses; the linearised history "
              "(which pending object each delayed notification carried, what every notification showed when received, whether each "
              "report replaced the stored object, PairingDetailForSki answers) must equal the model's on the same schedule, and "
-             "the property's monitors are evaluated inside Coq on those observations.",
+             "the property's monitors are evaluated inside Coq on those observations. System level: pairs of real hubs over "
+             "loopback TLS (generator certificates, fake mDNS, one dialled connection) for success / remote denial / handshake "
+             "error / pending then approved or cancelled: per hub the notifications received must be the model's FIFO "
+             "notifications (from the user operations, ServeHTTP and the connection's traced state changes) in some order, and "
+             "'last = PairingDetailForSki' is evaluated at the stable points (waiting for the user, finished).",
         note="(a) and (b) hold only under in-order delivery; on the pinned tree both fail (known findings "
              "delayed_notifications_inverted, sync_notification_overtakes_delayed). Trusted: Coq kernel + vm_compute; the Go-AST "
              "translator for the state table; the hubunit driver (fake connection/application, goroutine-id test that tells "
              "synchronous from delayed callbacks); error values are modelled as unwrapped distinct objects (errors.Is = identity); "
              "the hypothesis 'an error value is reported with SmeStateError only' is read from ship/handshake.go, its necessity is "
              "theorem C18_error_with_other_state_refuted. ServeHTTP's Queued->ReceivedPairingRequest notification is in the model "
-             "and the theorems but is not driven by the unit harness. No axioms (Print Assumptions: closed under the global context).",
+             "and the theorems, exercised by the two-hub runs only (not by the unit harness). The two-hub runs are statistical: a "
+             "notification later than 2 s of silence would be missed. No axioms (Print Assumptions: closed under the global context).",
         technique="Coq proof (invariants by induction on the history) + refutation witnesses + table regenerated from source + "
                   "differential correspondence on real-hub histories with monitors evaluated in Coq",
         ref="DESIGN.md §6 C18"),
     imports="From Ship Require Import Base Notify.\nOpen Scope N_scope.",
     case_type="c18_case", check_fn="check_c18",
-    drivers=[dict(bin="hubunit", args=["-prop", "C18"], n_quick=1500, n_thorough=30000, timeout=1200)],
+    drivers=[dict(bin="hubunit", args=["-prop", "C18"], n_quick=1500, n_thorough=30000, timeout=1200),
+             dict(bin="hubunit", args=["-prop", "C18sys"], n_quick=18, n_thorough=180, timeout=1200)],
     codes={10: "sync_notification_overtakes_delayed", 11: "delayed_notifications_inverted",
            12: "last_notification_not_current", 13: "older_state_after_newer_unexplained",
            15: "terminal_state_mapped_wrongly"},
@@ -45,7 +51,9 @@ SPEC = dict(
          "steps over all 40 states, error values incl. ErrConnectionNotFound and ill-formed ones, repeated reports, "
          "register/close of the connection, Register/Unregister/Cancel with or without the connection reacting, queries, "
          "pauses of 0/1-5/100-400/480-540 ms); every history ends with quiescence (poll, cap 8 s) and a query. distinct = hash of "
-         "the script; non-trivial = at least one report replaced the stored detail and at least two notifications were received.",
+         "the script; non-trivial = at least one report replaced the stored detail and at least two notifications were received. "
+         "Second driver: 18 pairs of real hubs (outcomes success x2, denied, error, pending_approved, pending_cancelled in turn), "
+         "one case per hub and stable point (non-trivial = at least two notifications).",
     trusted=["hub fakes: scripted connection (sets ShipHandshakeState, calls HandleShipHandshakeStateUpdate, reacts inside "
              "Abort/Approve/Close), application = the recorder, fake mDNS",
              "synchronous vs delayed callbacks are told apart by the goroutine they run on; the history is linearised by one "
